@@ -45,7 +45,7 @@ theorem inv_update {s : State} {i : Nat} {th th' : Th} {sh' : Sh}
 theorem glob_local {s : State} {i : Nat} {th th' : Th}
     (hG : Glob s) (hth : s.ths[i]? = some th) (hhb : th'.hb = th.hb) :
     Glob ⟨s.sh, s.ths.set i th'⟩ := by
-  refine { hG with holdHB := ?_, own := ?_ }
+  refine { hG with holdHB := ?_, own := ?_, ordered := ?_ }
   · intro j thj hj
     simp only at hj
     rw [getElem?_set_ite hth] at hj
@@ -67,6 +67,7 @@ theorem glob_local {s : State} {i : Nat} {th th' : Th}
       exact hG.own a ha th (hij ▸ hth)
     · simp only [hij, if_false] at hj
       exact hG.own a ha thj hj
+  · exact ordered_mono hG.ordered hth (by rw [hhb]; exact fun x hx => hx)
 
 /-- a recorded read access (plain read or atomic load): only the history grows -/
 theorem glob_read {s : State} {i : Nat} {th th' : Th} {f : Fld} {atm : Bool}
@@ -143,6 +144,16 @@ theorem glob_read {s : State} {i : Nat} {th th' : Th} {f : Fld} {atm : Bool}
         exact hhb _ (Or.inr (hG.own b hb th (hij ▸ hth)))
       · simp only [hij, if_false] at hj
         exact hG.own b hb thj hj
+  · simp only [Sh.record]
+    exact ordered_cons hG.ordered hth (fun x hx => hhb x (Or.inr hx)) rfl
+      (fun b hb hc => hhb _ (Or.inr (hrace b hb hc)))
+  · intro ht a ha
+    simp only [Sh.record] at ha ht
+    rcases List.mem_cons.mp ha with rfl | ha
+    · simp [mkAcc]
+    · exact hG.rawNoStore ht a ha
+  · simp only [Sh.record]
+    exact List.pairwise_cons.mpr ⟨fun b _ _ => by simp [mkAcc], hG.noWriteAfterStore⟩
 
 
 /-! ### views -/
